@@ -67,14 +67,19 @@ def _compatible(a, b):
 def rule_trivia_pair(ctx, prop):
     rep = Report(prop, "R-TRIVIAPAIR", "the GetTrailingTrivia and UpdateTrailingTrivia impls of a node type address the same "
                                        "child under the same conditions (path tables compared row by row)")
-    getp = re.compile(r"(^|::|>::)trailing_trivia$")
-    updp = re.compile(r"(^|::|>::)update_trailing_trivia$")
+    _sides(ctx, rep, "trailing", "Trailing")
+    return rep
+
+
+def _sides(ctx, rep, side, Side):
+    getp = re.compile(r"(^|::|>::)%s_trivia$" % side)
+    updp = re.compile(r"(^|::|>::)update_%s_trivia$" % side)
     for cfg, prog in ctx.programs.items():
         G, U = {}, {}
         for f in prog.fns("stylua_lib"):
-            if f.impl_trait and f.impl_trait.endswith("GetTrailingTrivia") and f.path.endswith("::trailing_trivia"):
+            if f.impl_trait and f.impl_trait.endswith("Get%sTrivia" % Side) and f.path.endswith("::%s_trivia" % side):
                 G[f.impl_self] = f
-            if f.impl_trait and f.impl_trait.endswith("UpdateTrailingTrivia") and f.path.endswith("::update_trailing_trivia"):
+            if f.impl_trait and f.impl_trait.endswith("Update%sTrivia" % Side) and f.path.endswith("::update_%s_trivia" % side):
                 U[f.impl_self] = f
         pairs = sorted(set(G) & set(U))
         judged = 0
@@ -87,10 +92,10 @@ def rule_trivia_pair(ctx, prop):
                 continue
             short = k.split("::")[-1]
             for gc, gt in gr:
-                if len(gt) != 1:
-                    continue
+                if len(gt) != 1 or "local:" in gt[0]:
+                    continue    # unresolved receiver (a binding shared by an or-pattern): not judged
                 for uc, ut in ur:
-                    if len(ut) != 1 or not _compatible(gc, uc):
+                    if len(ut) != 1 or "local:" in ut[0] or not _compatible(gc, uc):
                         continue
                     judged += 1
                     # one side may delegate to the child's own impl where the other reaches into it (`end_token(x)` vs `x`):
@@ -100,10 +105,19 @@ def rule_trivia_pair(ctx, prop):
                     if not ok:
                         cond = ", ".join(f"{a}={b}" for a, b in sorted({**gc, **uc}.items()) if isinstance(b, str))
                         rep.violation(f"{g.key} getter-updater-child-mismatch {short} reads={gt[0]} writes={ut[0]}",
-                                      f"for a {short} with [{cond}] GetTrailingTrivia reads the trailing trivia of `{gt[0]}` while "
-                                      f"UpdateTrailingTrivia writes `{ut[0]}`: layouts that move trailing comments (read with the getter, "
+                                      f"for a {short} with [{cond}] Get{Side}Trivia reads the {side} trivia of `{gt[0]}` while "
+                                      f"Update{Side}Trivia writes `{ut[0]}`: layouts that move {side} comments (read with the getter, "
                                       f"clear with the updater) delete the comments that sit on `{ut[0]}`", g.loc(), cfg,
                                       witness={"conditions": cond, "getter": g.key, "updater": u.key})
-        rep.floor("getter/updater pairs", len(pairs), 4 if cfg in ("default", "nodefault", "lua52", "lua53", "lua54", "luajit") else 9, cfg)
-        rep.floor("compatible row pairs judged", judged, 8, cfg)
+        rep.floor(f"{side} getter/updater pairs", len(pairs), FLOORS[side][0 if cfg in ("default", "nodefault", "lua52", "lua53", "lua54", "luajit") else 1], cfg)
+        rep.floor(f"{side} compatible row pairs judged", judged, 8, cfg)
+
+
+FLOORS = {"trailing": (4, 9), "leading": (4, 4)}
+
+
+def rule_trivia_pair_leading(ctx, prop):
+    rep = Report(prop, "R-TRIVIAPAIR(leading)", "the GetLeadingTrivia and UpdateLeadingTrivia impls of a node type address the "
+                                                "same child under the same conditions (path tables compared row by row)")
+    _sides(ctx, rep, "leading", "Leading")
     return rep
